@@ -62,7 +62,10 @@ func TestVerifC04(t *testing.T) {
 			if !done {
 				break
 			}
-			iv, status, _ := vNewImpl(c.Blob, g, c.Regs, c.Pages, "block")
+			// both engines: the block engine (top-level invocations) and the step engine (inner machines: its counter is what
+			// `invoke` writes back into the caller's memory)
+			engine := []string{"block", "step"}[i%2]
+			iv, status, _ := vNewImpl(c.Blob, g, c.Regs, c.Pages, engine)
 			if status != "" {
 				h.Viol("limits", i, "", "load-failed", map[string]any{"status": status, "blob": vh.Hex(c.Blob)})
 				break
@@ -72,7 +75,7 @@ func TestVerifC04(t *testing.T) {
 			if gp != "" {
 				d = "go panic: " + gp + " " + st
 			} else {
-				d = vCompare(mp, me, ms, ie, ipc, iv, "block")
+				d = vCompare(mp, me, ms, ie, ipc, iv, engine)
 			}
 			if d != "" {
 				det := vCaseDetail(c)
@@ -88,6 +91,7 @@ func TestVerifC04(t *testing.T) {
 				}
 			}
 			h.Inc("limit_runs")
+			h.Inc("limit_runs_" + engine)
 		}
 		h.Count("oog_strictly_inside", int64(oogInside))
 		if S >= 2 {
